@@ -13,14 +13,14 @@
 inline void c16_sentences(bool thorough, std::vector<std::string>* out, std::vector<std::string>* accepted_seeds) {
   const std::vector<std::string> abbr = {"AB", "ABC", "ABCDEFGH", "<>", "<+03>", "<-0330>", "<A B>", "<", "A1C", "", "abc", "<AB", "A,B"};
   std::vector<std::string> off;
-  for (const char* sg : {"", "+", "-"}) for (const char* h : {"0", "1", "9", "12", "24", "25", "024", ""}) for (const char* m : {"", ":0", ":59", ":60", ":5", ":"}) for (const char* sc : {"", ":0", ":59", ":60"}) {
+  for (const char* sg : {"", "+", "-"}) for (const char* h : {"0", "1", "9", "12", "24", "25", "024", "", "00000000000000000005", "4294967301", "99999999999999999999", "240", "245", "2400000000000000000000"}) for (const char* m : {"", ":0", ":59", ":60", ":5", ":", ":590", ":059"}) for (const char* sc : {"", ":0", ":59", ":60", ":599"}) {
     if (std::string(m).empty() && !std::string(sc).empty()) continue;
     off.push_back(std::string(sg) + h + m + sc);
   }
   const std::vector<std::string> dabbr = {"DST", "<+04>", "AB", "<>", "D5T"};
   const std::vector<std::string> doff = {"", "4", "-4:30", "+4:30:15", "25", "24", "-24:59:59", "4:60"};
-  const std::vector<std::string> date = {"J0", "J1", "J59", "J60", "J365", "J366", "0", "59", "365", "366", "M1.1.0", "M12.5.6", "M0.1.0", "M13.1.0", "M1.0.0", "M1.6.0", "M1.1.7", "M3.2", "M3", "M3.2.0.1", "J", "M", "", "-1", "J-1", "M3.-2.0"};
-  const std::vector<std::string> tim = {"", "/0", "/2", "/24", "/26", "/167", "/168", "/-1", "/-167", "/-168", "/1:30", "/1:30:45", "/+2", "/2:60", "/", "/2:", "/1:30:60", "/-0:0:1"};
+  const std::vector<std::string> date = {"J0", "J1", "J59", "J60", "J365", "J366", "0", "59", "365", "366", "M1.1.0", "M12.5.6", "M0.1.0", "M13.1.0", "M1.0.0", "M1.6.0", "M1.1.7", "M3.2", "M3", "M3.2.0.1", "J", "M", "", "-1", "J-1", "M3.-2.0", "J3650", "J0365", "3657", "3650", "M120.2.0", "M3.52.0", "M11.1.61", "M012.05.06"};
+  const std::vector<std::string> tim = {"", "/0", "/2", "/24", "/26", "/167", "/168", "/-1", "/-167", "/-168", "/1:30", "/1:30:45", "/+2", "/2:60", "/", "/2:", "/1:30:60", "/-0:0:1", "/1670", "/-1671", "/0167", "/1:590"};
   auto rule = [](const std::string& d1, const std::string& t1, const std::string& d2, const std::string& t2) { return "," + d1 + t1 + "," + d2 + t2; };
   const std::string A0 = "EST", O0 = "5", DA0 = "EDT", DO0 = "", R0 = rule("M3.2.0", "", "M11.1.0", "");
   const std::string A1 = "<+0330>", O1 = "-3:30", DA1 = "<+0430>", DO1 = "-4:30", R1 = rule("J79", "/24", "265", "/-1");
